@@ -576,3 +576,118 @@ Definition lt_okb (e : expr) (pls : list placement) : bool := forallb (lt_node_o
 (* all monitors that hold for every tree *)
 Definition structure_okb (pt : ptab) (now : Z) (e : expr) (pls : list placement) : bool :=
   placements_exactb pt now e pls && max_okb e pls && names_nodupb pls.
+
+(* ================================================================ range-based (dynamic) discretisation
+   CapacityConstraintMap::registerUsageForDuration, useDynamicDiscretization branch
+   (CapacityConstraint.cpp:237-319): the slots of a usage follow the list of (first, second, granularity)
+   ranges, starting at the FIRST time of the range that contains the start.  Everything else of the
+   lowering is unchanged, so the model is parametrised by the slot function. *)
+Section WithSlots.
+  Variable pt : ptab.
+  Variable now : Z.
+  Variable sl : Z -> Z -> list Z.          (* start -> duration -> capacity-map keys *)
+
+  Definition own_regs_with (e : expr) : list reg :=
+    match e with
+    | Choose n parts amount start dur util =>
+        match parse pt now e with
+        | PNo => []
+        | PU _ _ _ _ =>
+            flat_map (fun p => map (fun t => (p, t, AVar (VAlloc n p))) (sl start dur)) (sched pt parts)
+        end
+    | Alloc n allocs start dur =>
+        flat_map (fun pa => map (fun t => (fst pa, t, AConst (snd pa))) (sl start dur)) allocs
+    | _ => []
+    end.
+  Definition e_regs_with (e : expr) : list reg := flat_map own_regs_with (subs e).
+
+  Definition compile_with (e : expr) : result csys :=
+    match e with
+    | Objective n kids =>
+        if forallb (no_throw pt now) kids then
+          Ok {| cs_vars := e_vars pt now e; cs_rows := e_rows pt now e ++ cap_rows pt (e_regs_with e);
+                cs_obj := pu_util (parse pt now e) |}
+        else Err 1
+    | _ => Err 1
+    end.
+End WithSlots.
+
+Definition ranges := list (Z * Z * Z).      (* first, second, granularity *)
+
+Fixpoint find_range (rs : ranges) (start : Z) (i : nat) : option nat :=
+  match rs with
+  | [] => None
+  | (_, s2, _) :: rs' => if start <? s2 then Some i else find_range rs' start (S i)
+  end.
+
+(* one iteration of the two nested loops, see the comment in the C++ source; state = (index, current
+   time, remainder); stops when the remainder is 0 *)
+Fixpoint dyn_loop (fuel : nat) (rs : ranges) (idx : nat) (cur rem stop : Z) : list Z :=
+  match fuel with
+  | O => []
+  | S f =>
+      if rem <=? 0 then []
+      else match nth_error rs idx with
+           | None => []
+           | Some (_, s2, g) =>
+               let lim := Z.min stop s2 in
+               let last := (S idx =? length rs)%nat in
+               if (cur <? lim) || last then
+                 let cur' := cur + g in
+                 let rem' := if rem >? g then rem - g else 0 in
+                 cur :: (if negb (rem' =? 0) && (cur' >=? lim) && last then []
+                         else dyn_loop f rs idx cur' rem' stop)
+               else if (cur >=? s2) && negb last then dyn_loop f rs (S idx) cur rem stop
+               else []
+           end
+  end.
+
+Definition dyn_slots (rs : ranges) (start dur : Z) : list Z :=
+  match find_range rs start 0 with
+  | None => []
+  | Some idx =>
+      match nth_error rs idx with
+      | None => []
+      | Some (f, _, _) => dyn_loop (Z.to_nat (dur + (start - f)) + length rs + 1) rs idx f (dur + (start - f)) (start + dur)
+      end
+  end.
+
+(* the C++ throws when a start lies beyond the last range; a start before the first time of its range
+   makes `startTime - currentTime` wrap around in uint32 arithmetic: outside the model *)
+Definition range_ok (rs : ranges) (sd : Z * Z) : bool :=
+  match find_range rs (fst sd) 0 with
+  | None => false
+  | Some idx => match nth_error rs idx with Some (f, _, g) => (f <=? fst sd) | None => false end
+  end.
+Definition ranges_okb (rs : ranges) : bool := forallb (fun r => 0 <? snd r) rs.
+
+(* only leaves that register something reach registerUsageForDuration *)
+Definition reg_span (pt : ptab) (now : Z) (e : expr) : list (Z * Z) :=
+  match e with
+  | Choose _ _ _ start dur _ => if is_pu (parse pt now e) then [(start, dur)] else []
+  | Alloc _ allocs start dur => match allocs with [] => [] | _ => [(start, dur)] end
+  | _ => []
+  end.
+Definition compile_dyn (pt : ptab) (now : Z) (rs : ranges) (e : expr) : result csys :=
+  if ranges_okb rs && forallb (range_ok rs) (flat_map (reg_span pt now) (subs e))
+  then compile_with pt now (dyn_slots rs) e else Err 1.
+
+Definition obs_compile_dyn (x : ptab * Z * ranges * expr) : val :=
+  match x with (pt, now, rs, e) => vres v_csys (compile_dyn pt now rs e) end.
+
+(* the covering condition under which capacity holds for ANY slot function: one key per time, registered by
+   every leaf that is active at that time.  Decidable form for the range-based slots: *)
+Fixpoint grid_key (rs : ranges) (tau : Z) : Z :=
+  match rs with
+  | [] => tau
+  | (f, s2, g) :: rs' =>
+      match rs' with
+      | [] => (* beyond the last range nothing more is registered: the last slot stands for all later times *)
+              if tau <? s2 then f + ((tau - f) / g) * g else f + ((s2 - 1 - f) / g) * g
+      | _ => if tau <? s2 then f + ((tau - f) / g) * g else grid_key rs' tau
+      end
+  end.
+Definition times_of (s d : Z) : list Z := map (fun k => s + Z.of_nat k) (seq 0 (Z.to_nat d)).
+Definition coveringb (sl : Z -> Z -> list Z) (key : Z -> Z) (e : expr) : bool :=
+  forallb (fun sd => forallb (fun tau => memZ (key tau) (sl (fst sd) (snd sd))) (times_of (fst sd) (snd sd)))
+          (leaf_spans e).
